@@ -484,6 +484,91 @@ fn replay<C: CellType>(name: &str, instr: Instr<C>, live: u16) {
     }
 }
 
+/// Limit-check replay: a counted loop with exactly four budget checks (one BrZ, three BrNZ) on the
+/// REAL JIT in limited mode.  Contract of the check (unit u6): stop iff budget < 2, else budget -= 1;
+/// hence `finished` iff the budget is at least 5, and then 4 units are consumed.
+fn replay_limit<C: CellType>(name: &str, cex_budget: Option<u64>) {
+    let mut budgets: Vec<u64> = vec![1, 2, 4, 5, 6, 1 << 32, (1 << 32) + 1, 5 << 32, (u64::MAX >> 2) + 1];
+    if let Some(b) = cex_budget {
+        budgets.insert(0, b);
+    }
+    let mut bad = 0;
+    for b in budgets {
+        let insts: Vec<Instr<C>> = vec![
+            Instr::Copy(Loc::Mem(0), Loc::Imm(C::from_u8(3))),
+            Instr::BrZ(0, 3),
+            Instr::Add(Loc::Mem(0), Loc::Mem(0), Loc::Imm(C::NEG_ONE)),
+            Instr::BrNZ(0, -1),
+        ];
+        let prog = Program::<C> { temps: 2, min_accessed: 0, max_accessed: 0, live: vec![0; 4], insts };
+        let jit = BaseJitCompiler { bytecode: prog };
+        let mut cxt = Context::<C>::without_io();
+        cxt.budget = b as usize;
+        let fin = jit.execute_limited(&mut cxt).unwrap();
+        let want = b >= 5;
+        if fin != want || (fin && (cxt.budget as u64 != b - 4 || cxt.memory.read(0) != C::ZERO)) {
+            bad += 1;
+            println!("U6REPLAY {} MISMATCH budget={:#x} finished={} expected={} budget_left={:#x} cell={:?}", name, b, fin, want, cxt.budget, cxt.memory.read(0));
+        }
+    }
+    if bad == 0 {
+        println!("U6REPLAY {} OK", name);
+    }
+}
+
+/// I/O call replay: the REAL JIT runs a program that loads every temporary, performs the Inp / Out
+/// under test with the given live mask, and stores the temporaries again; once with working I/O
+/// (live temporaries must survive the runtime call) and once with failing I/O (the run must stop
+/// cleanly before the stores -- a crash of this process is a reproduction, too).
+fn replay_io<C: CellType>(name: &str, is_inp: bool, cell: isize, live: u16) {
+    let mut bad = 0;
+    for fail in [false, true] {
+        let mut insts: Vec<Instr<C>> = Vec::new();
+        for t in 0..13usize {
+            insts.push(Instr::Copy(Loc::Tmp(t), Loc::Imm(C::from_u8(100 + t as u8))));
+        }
+        insts.push(Instr::Copy(Loc::Mem(cell), Loc::Imm(C::from_u8(65))));
+        let at = insts.len();
+        insts.push(if is_inp { Instr::Inp(cell) } else { Instr::Out(cell) });
+        for t in 0..13usize {
+            insts.push(Instr::Copy(Loc::Mem(40 + t as isize), Loc::Tmp(t)));
+        }
+        let mut lives = vec![0xffffu16; insts.len()];
+        lives[at] = live;
+        let prog = Program::<C> { temps: 13, min_accessed: -70, max_accessed: 60, live: lives, insts };
+        let jit = BaseJitCompiler { bytecode: prog };
+        let mut out: Vec<u8> = Vec::new();
+        let mut none: [u8; 0] = [];
+        {
+            let input: Option<Box<dyn std::io::Read>> = if fail { None } else { Some(Box::new(&[42u8][..])) };
+            let output: Option<Box<dyn std::io::Write>> = if fail { Some(Box::new(&mut none[..])) } else { Some(Box::new(&mut out)) };
+            let mut cxt = Context::<C>::new(input, output);
+            jit.execute(&mut cxt).unwrap();
+            for t in 0..13usize {
+                let got = cxt.memory.read(40 + t as isize);
+                let want = if fail { C::ZERO } else { C::from_u8(100 + t as u8) };
+                if (fail || t >= 11 || live & (1 << t) != 0) && got != want {
+                    bad += 1;
+                    println!("U6REPLAY {} MISMATCH fail={} temporary {} stored as {:?}, expected {:?}", name, fail, t, got, want);
+                }
+            }
+            let c = cxt.memory.read(cell);
+            let want = if is_inp && !fail { C::from_u8(42) } else { C::from_u8(65) };
+            if c != want {
+                bad += 1;
+                println!("U6REPLAY {} MISMATCH fail={} cell {:?}, expected {:?}", name, fail, c, want);
+            }
+        }
+        if !is_inp && !fail && out != [65u8] {
+            bad += 1;
+            println!("U6REPLAY {} MISMATCH output {:?}, expected [65]", name, out);
+        }
+    }
+    if bad == 0 {
+        println!("U6REPLAY {} OK", name);
+    }
+}
+
 #[test]
 fn verif_u6_replay() {
 %s
@@ -516,6 +601,22 @@ def native_replay(ob, tier, seed):
     sys.path.insert(0, os.path.join(os.path.dirname(HERE), "..", "tools"))
     from common import Scratch
     short = ob["harness"].split("::")[-1]
+    pv = ob.get("playback_values") or []
+
+    def first(n):
+        return next((x["bytes"] for x in pv if len(x["bytes"]) == n), None)
+    lim_cases = [c for c in _cases(tier, seed) if c[0] == short and "check_branch" in c[9] and c[5]]
+    if lim_cases:
+        n, w = lim_cases[0][0], lim_cases[0][1]
+        ctx = first(32)
+        cex_b = int.from_bytes(bytes(ctx[24:32]), "little") if ctx else None
+        body = '    replay_limit::<%s>("%s", %s);' % (w, n, "Some(%d)" % cex_b if cex_b is not None else "None")
+        return _run_replay(body, "", "", "real BaseJitCompiler in limited mode on a counted loop with four budget checks; budget of the verifier's counterexample: %s; plus built-in budgets around 2, 5 and 2^32 (another program than the harness's single branch: a passing replay never demotes the violation)" % (hex(cex_b) if cex_b is not None else "-"), False)
+    io_cases = [c for c in IOCALLS if c[0] == short]
+    if io_cases:
+        n, w, inp, idx, live = io_cases[0]
+        return _run_replay('    replay_io::<%s>("%s", %s, %d, 0x%x);' % (w, n, "true" if inp else "false", idx, live), "", "",
+                           "real BaseJitCompiler: all 13 temporaries loaded, the %s under test with its live mask, temporaries stored; run with working and with failing I/O (the contract is over the code sequence, so the replay uses fixed operand values; a passing replay therefore never demotes the violation)" % ("Inp" if inp else "Out"), False)
     cases = [c for c in _cases(tier, seed) if c[0] == short and "check_arith" in c[9]]
     if not cases:
         return None
@@ -541,10 +642,20 @@ def native_replay(ob, tier, seed):
             word = q(mem, lo // 8)
             return (word >> ((lo % 8) * 8)) & ((1 << bits) - 1)
         cex_m = ", ".join("(%d, %d)" % (i, cell(i)) for i in ms)
+    return _run_replay('    replay::<%s>("%s", %s, 0x%x);' % (w, n, ins, live), cex_t, cex_m,
+                       "real BaseJitCompiler, native machine code; operand values of the verifier's counterexample: tmps [%s] cells [%s]; plus two built-in operand sets" % (cex_t, cex_m),
+                       bool(cex_t or cex_m))
+
+
+def _run_replay(body, cex_t, cex_m, what, cex_used):
+    import re
+    import subprocess
+    import sys
+    sys.path.insert(0, os.path.join(os.path.dirname(HERE), "..", "tools"))
+    from common import Scratch
     with Scratch("u6replay") as sc:
         path = os.path.join(sc.repo, "src/exec/basejit/verif_u6_replay.rs")
-        open(path, "w").write((REPLAY_TMPL % ('    replay::<%s>("%s", %s, 0x%x);' % (w, n, ins, live)))
-                              .replace("VERIF_CEX_TMPS", cex_t).replace("VERIF_CEX_MEMS", cex_m))
+        open(path, "w").write((REPLAY_TMPL % body).replace("VERIF_CEX_TMPS", cex_t).replace("VERIF_CEX_MEMS", cex_m))
         with open(os.path.join(sc.repo, "src/exec/basejit/mod.rs"), "a") as fh:
             fh.write('\n#[cfg(all(test, hpbf_verif_replay))]\n#[path = "%s"]\nmod verif_u6_replay;\n' % path)
         env = dict(os.environ, CARGO_NET_OFFLINE="true", RUSTFLAGS="--cfg hpbf_verif_replay",
@@ -554,7 +665,7 @@ def native_replay(ob, tier, seed):
         lines = re.findall(r"U6REPLAY .*", p.stdout)
         reproduced = any("MISMATCH" in l for l in lines) or "signal" in (p.stdout + p.stderr)
         passed = any(l.endswith(" OK") for l in lines)
-        return {"cmd": "RUSTFLAGS=--cfg hpbf_verif_replay cargo test --lib verif_u6_replay (real BaseJitCompiler, native machine code; operand values of the verifier's counterexample: tmps [%s] cells [%s]; plus two built-in operand sets)" % (cex_t, cex_m),
-                "counterexample_operands_used": bool(cex_t or cex_m),
+        return {"cmd": "RUSTFLAGS=--cfg hpbf_verif_replay cargo test --lib verif_u6_replay (%s)" % what,
+                "counterexample_operands_used": cex_used,
                 "reproduced_on_real_code": reproduced, "passed_on_real_code": passed and not reproduced,
                 "exit": p.returncode, "output_tail": "\n".join(lines)[-1200:] or (p.stdout + p.stderr)[-800:]}
